@@ -17,6 +17,7 @@ import (
 	"github.com/nspcc-dev/neo-go/pkg/util"
 	"github.com/nspcc-dev/neo-go/pkg/vm"
 	"github.com/nspcc-dev/neo-go/pkg/vm/emit"
+	"github.com/nspcc-dev/neo-go/pkg/vm/opcode"
 	"github.com/nspcc-dev/neo-go/pkg/vm/stackitem"
 	"golang.org/x/crypto/ripemd160" //nolint:staticcheck // independent implementation on purpose
 	"pgregory.net/rapid"
@@ -369,6 +370,38 @@ func checkEmitIntCase(c EmitIntCase, o *vt.Obs) error {
 		if err != nil || i64 != keep.Int64() {
 			return fmt.Errorf("GetInt64FromInstr(emit.%s(%s)) = %d, %v", via, keep, i64, err)
 		}
+	}
+	// The same integer in every WIDER spelling (scripts made by other tools are not minimal): the operand sign-extended
+	// to 2, 4, 8, 16, 32 bytes is the same number for the VM and has to be the same number for the static parsers.
+	if keep.BitLen() < 256 {
+		min := refBigintBytes(keep)
+		ext := byte(0)
+		if keep.Sign() < 0 {
+			ext = 0xff
+		}
+		for k, w := range []int{1, 2, 4, 8, 16, 32} {
+			if w < len(min) {
+				continue
+			}
+			wide := append([]byte{}, min...)
+			for len(wide) < w {
+				wide = append(wide, ext)
+			}
+			wop := opcode.Opcode(opPUSHINT8 + byte(k))
+			if b, err := scparser.GetBigIntFromInstr(scparser.Instruction{Op: wop, Param: wide}); err != nil || b.Cmp(keep) != 0 {
+				return fmt.Errorf("GetBigIntFromInstr(%s %x) = %v, %v; the operand is %s", wop, wide, b, err, keep)
+			}
+			if keep.IsInt64() {
+				if i, err := scparser.GetInt64FromInstr(scparser.Instruction{Op: wop, Param: wide}); err != nil || i != keep.Int64() {
+					return fmt.Errorf("GetInt64FromInstr(%s %x) = %d, %v; the operand is %s (GetBigIntFromInstr and the VM read it so)", wop, wide, i, err, keep)
+				}
+			}
+			wv, err := runScript(append([]byte{byte(wop)}, wide...))
+			if err != nil || wv.Estack().Len() != 1 || wv.Estack().Peek(0).BigInt().Cmp(keep) != 0 {
+				return fmt.Errorf("VM on %s %x: %v (the operand is %s)", wop, wide, err, keep)
+			}
+		}
+		o.Label("wider-spellings")
 	}
 	v, err := runScript(script)
 	if err != nil {
